@@ -113,7 +113,7 @@ def build(data):
     for i in range(g.int(0, 7)):
         kind, txt = g.pick(UNITS)
         prefix.append([kind, txt.replace("{N}", str(i))])
-    return {"prefix": prefix, "shape": g.pick(["single", "include", "inherit", "nsdef", "chain", "single", "include-deep"]),
+    return {"prefix": prefix, "shape": g.pick(["single", "include", "inherit", "nsdef", "chain", "single", "include-deep", "ccall-body"]),
             "path": g.pick(["put_string", "files", "moddir", "moddir-reload"]), "k": g.int(0, 2),
             "outer_pad": g.int(0, 4)}
 
@@ -151,6 +151,13 @@ def make_set(subject, rkind):
         T["/lib.html"] = '<%def name="libdef()">\n' + inner + "</%def>\n"
         T["/entry.html"] = '<%namespace name="lib" file="/lib.html"/>\n' + pad + "${lib.libdef()}\n"
         return T, "/entry.html", [("/entry.html", subject["outer_pad"] + 2)] + [("/lib.html", l + 1) for l in inner_frames]
+    if shape == "ccall-body":
+        # entry -> lib def (called with content) -> entry's call body: template frames interleave A, B, A
+        T["/lib.html"] = '<%def name="wrap()">\nw1\n' + pad + "${caller.body()}\n</%def>\n"
+        head = '<%namespace name="lib" file="/lib.html"/>\n' + pad + "<%lib:wrap>\n"
+        T["/entry.html"] = head + inner + "</%lib:wrap>\n"
+        off = head.count("\n")
+        return T, "/entry.html", [("/entry.html", off), ("/lib.html", subject["outer_pad"] + 3)] + [("/entry.html", l + off) for l in inner_frames]
     if shape == "chain":
         T["/sub/inc.html"] = inner
         T["/sub/lib.html"] = '<%def name="libdef()">\nl1\n' + pad + '<%include file="inc.html"/>\n</%def>\n'
